@@ -131,6 +131,29 @@ def c13_b(ctx):
     ctx.check(ok, pdf, 'weighted component density', 'd += w * mvn.pdf(x, mean=m, cov=cov)',
               'the accumulated term is not w * N(x; m, cov) of the paired component', fn=pdf,
               node=acc[0] if acc else n)
+    # every density evaluated in pdf is N(x; m, cov) with the shared covariance: a univariate
+    # normal takes a standard deviation, not a variance
+    ctx.fact('scipy.stats.norm.pdf(x, loc, scale): scale is a standard deviation; '
+             'multivariate_normal.pdf(x, mean, cov): cov is a (co)variance')
+    for c_ in ctx.calls(pdf):
+        ft = ex.term(c_.func)
+        if match(ft, pattern('ss.norm.pdf')) is not None or \
+                match(ft, pattern('ss.norm.logpdf')) is not None:
+            kw = dict((k.arg, ex.term(k.value)) for k in c_.keywords)
+            sc = kw.get('scale', ex.term(c_.args[2]) if len(c_.args) > 2 else None)
+            oksc = sc is not None and contains(sc, 'np.sqrt(_)') and \
+                ('param', 'cov') in set(subterms(sc))
+            ctx.check(oksc, pdf, 'univariate component uses the standard deviation',
+                      'scale = sqrt(cov)',
+                      'ss.norm.pdf is given scale={}: the shared covariance is a variance, the '
+                      'scale must be its square root'.format(show(sc)[:40] if sc else None),
+                      fn=pdf, node=c_)
+        elif match(ft, pattern('ss.multivariate_normal.pdf')) is not None:
+            kw = dict((k.arg, ex.term(k.value)) for k in c_.keywords)
+            cv = kw.get('cov', ex.term(c_.args[2]) if len(c_.args) > 2 else None)
+            ctx.check(cv == ('param', 'cov'), pdf, 'component covariance is the shared one',
+                      'cov=cov', 'a component is evaluated with covariance {}'.format(
+                          show(cv)[:40] if cv else None), fn=pdf, node=c_)
     init = [s for s in own_nodes(pdf.node) if isinstance(s, ast.Assign) and
             match(ex.term(s.value), pattern('np.zeros(len(_))')) is not None]
     ctx.check(bool(init) and ctx.must_precede(pdf, init, n), pdf, 'accumulator starts at zero',
@@ -155,6 +178,30 @@ def c13_b(ctx):
                                      'weights / np.sum(weights)')) is not None
     ctx.check(ok, nw, 'normalisation', 'w / sum(w)', 'normalize_weights does not divide by the sum',
               fn=nw, node=rr[0] if rr else nw.node)
+    # the caller's weight array is not modified: no in-place operation on it or on a view of it
+    aliases = {nw.params[0]}
+    for n_ in own_nodes(nw.node):
+        if isinstance(n_, ast.Assign) and isinstance(n_.targets[0], ast.Name) and \
+                isinstance(n_.value, ast.Call) and n_.value.args and \
+                isinstance(n_.value.args[0], ast.Name) and n_.value.args[0].id in aliases and \
+                callee_name(n_.value) in ('atleast_1d', 'asarray', 'asanyarray', 'atleast_2d',
+                                          'ravel', 'squeeze'):
+            aliases.add(n_.targets[0].id)       # these return the input itself for an ndarray
+    inplace = [n_ for n_ in own_nodes(nw.node)
+               if (isinstance(n_, ast.AugAssign) and isinstance(n_.target, ast.Name) and
+                   n_.target.id in aliases) or
+               (isinstance(n_, ast.Assign) and isinstance(n_.targets[0], ast.Subscript) and
+                isinstance(n_.targets[0].value, ast.Name) and
+                n_.targets[0].value.id in aliases) or
+               (isinstance(n_, ast.Call) and any(
+                   k.arg == 'out' and isinstance(k.value, ast.Name) and k.value.id in aliases
+                   for k in n_.keywords))]
+    ctx.check(not inplace, nw, 'the caller\'s weights are left untouched',
+              'a new array is returned',
+              'normalize_weights operates in place on `{}`, which is the caller\'s array for '
+              'ndarray input: stored population weights are rescaled when the population is '
+              'used as a proposal'.format(src(inplace[0])[:40] if inplace else ''), fn=nw,
+              node=inplace[0] if inplace else nw.node)
     g1 = any(any(pol and contains(t, 'np.any(_ < 0)') for (t, pol, _) in ctx.guards(nw, r))
              for r in ctx.stmts(nw, ast.Raise))
     g2 = any(any(pol and match(t, pattern('np.sum(weights) == 0')) is not None
